@@ -54,6 +54,25 @@ GemmMagCases ==
       \A e \in {<<100, -120, 40>>, <<-120, 100, 40>>, <<-100, 126, -40>>, <<126, -100, -40>>, <<60, 60, -100>>, <<-70, -70, 120>>} :
          P(GemmMagCase(K, N, e[1], e[2], e[3], tA, tB))
 
+\* an operand that is all zeros (padding, a dead activation vector, an untrained layer): alpha*A*B vanishes, beta*C does not - every
+\* pair (alpha, beta), every bias form, transposed or not; zero on the left, on the right, and in the bias
+ZeroOperandCases ==
+   LET Z(shape) == T("f32", shape, [k \in 1..Size(shape) |-> 0]) IN
+   /\ \A tA \in BOOLEAN, tB \in BOOLEAN, ck \in {"absent", "scalar", "N", "M1", "MN"}, which \in {"A", "B", "C", "AB"} :
+         \A ab \in {<<x, y>> : x \in {Fin(1), Fin(2), Rat(1, 2)}, y \in {Fin(0), Fin(1), Fin(2), Fin(-1), Rat(1, 2)}} :
+            (which = "C" => ck # "absent") =>
+            LET M == 2 K == 3 N == 2
+                A0 == Iota("f32", IF tA THEN <<K, M>> ELSE <<M, K>>, 1) B0 == Iota("f32", IF tB THEN <<N, K>> ELSE <<K, N>>, 1)
+                A == IF which \in {"A", "AB"} THEN Z(A0.shape) ELSE A0
+                B == IF which \in {"B", "AB"} THEN Z(B0.shape) ELSE B0
+                C == IF ck = "absent" THEN Nil ELSE IF which = "C" THEN Z(CShape(ck, M, N)) ELSE Iota("f32", CShape(ck, M, N), 10)
+                attrs == <<AF("alpha", ab[1]), AF("beta", ab[2]), AI("transA", IF tA THEN 1 ELSE 0), AI("transB", IF tB THEN 1 ELSE 0)>>
+                s == SemGemm(A, B, C, attrs)
+            IN P(CaseRec("gemm", "Gemm", attrs, IF ck = "absent" THEN <<A, B>> ELSE <<A, B, C>>, s, <<Tag(s), "f32", "zero_operand", "zero_" \o which, "C_" \o ck>>))
+   /\ \A sh \in {<<<<2, 3>>, <<3, 2>>>>, <<<<3>>, <<3, 2>>>>, <<<<2, 2, 3>>, <<3, 2>>>>} : \A which \in {"A", "B"} :
+         LET A == IF which = "A" THEN Z(sh[1]) ELSE Iota("f32", sh[1], 1) B == IF which = "B" THEN Z(sh[2]) ELSE Iota("f32", sh[2], 1) s == SemMatMul(A, B) IN
+         P([CaseRec("matmul", "MatMul", <<>>, <<A, B>>, s, <<Tag(s), "f32", "zero_operand", "zero_" \o which>>) EXCEPT !.known = KnownMatMul(A, B)])
+
 \* long operands: a long outer product, a long row of dot products (each of 2 terms), Gemm with a long bias row
 LongLinearCases ==
    LET n == 20001 col == T("f32", <<n, 1>>, [k \in 1..n |-> (k % 13) - 6]) row == T("f32", <<1, 2>>, <<3, -2>>)
@@ -140,7 +159,7 @@ Emit ==
                     /\ \A dt \in {"f64", "i32", "i64", "u32", "u64"}, ck \in {"absent", "N", "MN"} :
                           P(GemmCase(st.tA, st.tB, <<Fin(2), Fin(-1)>>, ck, 2, 3, 2, dt, FALSE)) /\ P(GemmCase(st.tA, st.tB, <<Fin(1), Fin(1)>>, ck, 2, 3, 2, dt, TRUE))
                     /\ P(GemmBadInner("f32")))
-              /\ (st.M = 1 /\ st.K = 1 /\ st.N = 1 /\ ~st.tA /\ ~st.tB => GemmMagCases /\ LongLinearCases /\ TileLinearCases /\ WrapCases)
+              /\ (st.M = 1 /\ st.K = 1 /\ st.N = 1 /\ ~st.tA /\ ~st.tB => GemmMagCases /\ LongLinearCases /\ TileLinearCases /\ WrapCases /\ ZeroOperandCases)
         [] st.fam = "linreg" ->
               /\ \A ik \in {"absent", "one", "targets", "bad"} : P(LRCase(st.N, st.F, st.Tg, ik, "f32"))
               /\ (st.N = 2 /\ st.F = 2 => \A dt \in {"f64", "i32", "i64"} : P(LRCase(2, 2, st.Tg, "targets", dt)))
